@@ -35,6 +35,17 @@ func denseSpec(n uint64, events int, salt uint64) chain.BlockSpec {
 	return sp
 }
 
+// wideSpec: one event with 70 keys (key positions 64 and above need a two-byte position prefix in the bloom entries).
+func wideSpec(n uint64) chain.BlockSpec {
+	sp := chain.BlockSpec{Version: version, Timestamp: 1000 + n*10}
+	var keys []felt.Felt
+	for i := 0; i < 70; i++ {
+		keys = append(keys, chain.FV(0xF0000000+uint64(i)))
+	}
+	sp.Txs = []chain.TxSpec{{Kind: "invoke3", Salt: n*16 + 9, Events: []chain.EvSpec{{From: chain.AddrA, Keys: keys, Data: []felt.Felt{chain.FV(n)}}}}}
+	return sp
+}
+
 func (h *harness) denseSweep(newState bool) (queries int64) {
 	r := h.r
 	be := hist.Backend(newState)
@@ -64,7 +75,7 @@ func (h *harness) denseSweep(newState bool) (queries int64) {
 				ch = append(ch, e)
 				return true
 			}
-			ok := add(specOf(0, shEmpty)) && add(denseSpec(1, n1, 1)) && add(specOf(2, shX)) && add(denseSpec(3, n2, 2)) && add(specOf(4, shY))
+			ok := add(specOf(0, shEmpty)) && add(denseSpec(1, n1, 1)) && add(specOf(2, shX)) && add(denseSpec(3, n2, 2)) && add(specOf(4, shY)) && add(wideSpec(5))
 			if !ok {
 				continue
 			}
@@ -110,11 +121,42 @@ func (h *harness) denseSweep(newState bool) (queries int64) {
 					}
 				}
 			}
+			// one constrained key position at a time, up to position 69 of the 70-key event of block 5
+			wide := func(stage string, node *blockchain.Blockchain) {
+				for _, pos := range []int{0, 1, 31, 62, 63, 64, 65, 69} {
+					pat := make([][]felt.Felt, pos+1)
+					pat[pos] = []felt.Felt{chain.FV(0xF0000000 + uint64(pos))}
+					f := filter{name: fmt.Sprintf("key position %d of a 70-key event", pos), keys: pat}
+					efI, err := node.EventFilter(nil, f.keys, noPreConfirmed)
+					if err != nil {
+						r.Violate("dense: event-filter-error"+be, map[string]any{"err": err.Error()})
+						return
+					}
+					ef := efI.(*blockchain.EventFilter)
+					ef.SetRangeEndBlockByNumber(blockchain.EventFilterFrom, 0)
+					ef.SetRangeEndBlockByNumber(blockchain.EventFilterTo, head)
+					exp := naive(all, &f, 0, head, true)
+					queries++
+					var res pagedResult
+					if p, msg := ev.Guard(func() { res = runPaged(ef, 100) }); p {
+						res.err = "panic: " + msg
+					}
+					if res.err != "" || !equalLists(res.evs, exp) {
+						kind, blk := classify(res.evs, exp)
+						r.Violate(fmt.Sprintf("dense: %s (one key position of a 70-key event) %s%s", kind, stage, be), map[string]any{"position": pos, "first_difference_at_block": blk,
+							"got": gotStrings(res.evs), "expected": expStrings(exp), "error": res.err})
+					}
+					ef.Close()
+				}
+			}
+			wide("long-lived node", bc)
 			check("long-lived node", bc, 1)
 			if err := bc.WriteRunningEventFilter(); err != nil {
 				r.Infra("dense sweep: snapshot: %v", err)
 			}
-			check("after graceful restart", chain.NewNode(d, newState), 7)
+			gr := chain.NewNode(d, newState)
+			wide("after graceful restart", gr)
+			check("after graceful restart", gr, 7)
 			// ungraceful: the snapshot is removed (as if never written) and the index is rebuilt from the blocks
 			d2 := memory.New()
 			bc2 := chain.NewNode(d2, newState)
@@ -125,7 +167,9 @@ func (h *harness) denseSweep(newState bool) (queries int64) {
 				}
 				p = e
 			}
-			check("after ungraceful restart", chain.NewNode(d2, newState), 7)
+			ur := chain.NewNode(d2, newState)
+			wide("after ungraceful restart", ur)
+			check("after ungraceful restart", ur, 7)
 		}
 	}
 	return queries
